@@ -81,7 +81,7 @@ func cmdVerify(args []string) {
 		}
 		if *verbose {
 			for _, l := range r.Loops {
-				fmt.Println("  ", l)
+				fmt.Println("  ", k, l)
 			}
 			for _, w := range r.Warnings {
 				fmt.Println("  warn:", w)
